@@ -220,6 +220,11 @@ func (c *Config) Validate() error {
 	return nil
 }
 
+// MaxBackendWeight is the largest weight a backend may have. Weights are relative, so nothing
+// is lost by the limit; it keeps the sums the weighted strategies compute far away from the
+// largest integer, where they would wrap around
+const MaxBackendWeight = 1<<31 - 1
+
 // maxSeconds is the largest number of seconds that still fits a time.Duration (about 292
 // years). The settings given in seconds are multiplied by time.Second when they are used; a
 // larger value would wrap around to a negative or arbitrary duration (and, for a ticker
@@ -272,6 +277,9 @@ func (c *Config) validateBackends() error {
 		}
 		if backend.Weight < 0 {
 			return fmt.Errorf("backend %s: weight must be non-negative (got %d)", backend.Name, backend.Weight)
+		}
+		if backend.Weight > MaxBackendWeight {
+			return fmt.Errorf("backend %s: weight must be at most %d (got %d)", backend.Name, MaxBackendWeight, backend.Weight)
 		}
 		if err := validateBackendAddress(backend.Address); err != nil {
 			return fmt.Errorf("backend %s: %w", backend.Name, err)
